@@ -175,7 +175,8 @@ def Can (x : Node) : Prop := x.canChangeConfig = true ∧ x.ldr.node.voter = tru
 def Hs (x : Node) : Prop := x.canChangeConfig = true → x.ldr.node.voter = true
 
 /-- the configuration a handler works on has the voters of the latest one — while a change can be stored -/
-def J (x : Node) (cfg : Config) : Prop := Can x → SameVoters cfg x.configs.latest
+def J (x : Node) (cfg : Config) : Prop :=
+  Can x → SameVoters cfg x.configs.latest ∧ (Srt x.configs.latest → Srt cfg)
 
 theorem Can.k0 {x y : Node} (h : Can x) (e : k0 y = k0 x) : Can y := by
   unfold Can; rw [canChange_k0 e, (k0_eq e).2.2.2.2.2.2.1]; exact h
@@ -188,7 +189,7 @@ theorem J.k0 {x y : Node} {cfg : Config} (h : J x cfg) (e : k0 y = k0 x) : J y c
   rw [(k0_eq e).1]
   exact h (hc.k0 (x := y) (y := x) e.symm)
 
-theorem J.refl (x : Node) : J x x.configs.latest := fun _ => SameVoters.refl _
+theorem J.refl (x : Node) : J x x.configs.latest := fun _ => ⟨SameVoters.refl _, id⟩
 
 theorem inert_of_not_can {x : Node} (h : ¬ Can x) : Inert x := by
   unfold Inert
@@ -231,14 +232,14 @@ def StoreOut (x : Node) (c : Config) (x' : Node) : Prop :=
   Failed x' ∨ (x.lastLogIndex < x'.lastLogIndex ∧ Post c x')
 
 def DCspec (s₀ : Node) (n : Nat) : Prop := ∀ x task b c, V s₀ x → Can x → Deriv b c →
-  SameVoters b x.configs.latest → HasAnchor c →
+  SameVoters b x.configs.latest → (Srt x.configs.latest → Srt c) → HasAnchor c →
   G s₀ x (doChangeConfig n x task c) ∧ StoreOut x c (doChangeConfig n x task c)
 
 def SEspec (s₀ : Node) (n : Nat) : Prop :=
   (∀ x b, V s₀ x → (∀ q ∈ b, q.typ ≠ etConfig) →
     G s₀ x (storeEntry n x b)) ∧
   (∀ x q b c, V s₀ x → Can x → q.typ = etConfig → q.cfg = some c → Deriv b c → SameVoters b x.configs.latest →
-    HasAnchor c →
+    (Srt x.configs.latest → Srt c) → HasAnchor c →
     G s₀ x (storeEntry n x [q]) ∧ StoreOut x c (storeEntry n x [q]))
 
 /-- the conditions under which a commit attempt right after a configuration was stored is analysed -/
@@ -304,7 +305,8 @@ theorem CA_succ {s₀ : Node} {t : Nat} (ht : t ≠ 0) {n : Nat} (hDC : DCspec s
       have hcan : Can (x.setRepl r) := ⟨h2, hv⟩
       have hone : OneNode cfg c := actionConfig_oneNode _ cfg id r c h3 h4
       have hanch : HasAnchor cfg := hA.of_get (nextAction_ne h3)
-      obtain ⟨a1, a3⟩ := hDC (x.setRepl r) task cfg c hV1 hcan (Or.inr hone) (hJ ⟨h2, hv⟩) (hone.anchor hanch)
+      obtain ⟨a1, a3⟩ := hDC (x.setRepl r) task cfg c hV1 hcan (Or.inr hone) (hJ ⟨h2, hv⟩).1
+        (fun hs => srt_actionConfig ((hJ ⟨h2, hv⟩).2 hs) h4) (hone.anchor hanch)
       refine ⟨a1, ?_⟩
       rcases a3 with a3 | ⟨a3, a4⟩
       · exact Or.inl a3
@@ -570,10 +572,10 @@ theorem pathA {s₀ : Node} {t n : Nat} (hCA : CAspec s₀ t n) (task : Nat) (cf
 /-- the loop of `checkConfigActions` after the leader's action on ITSELF was stored (`c`) -/
 theorem pathB {s₀ : Node} {t n : Nat} (ht : t ≠ 0) (hCA : CAspec s₀ t n) (hDC : DCspec s₀ n) (task : Nat) (cfg c : Config)
     (x : Node) (hVx : V s₀ x) (hcan : Can x) (hd : Deriv cfg c) (hJ : J x cfg) (ha : HasAnchor c)
-    (hne : ∀ id, id ≠ x.nid → c.find? id = cfg.find? id) :
+    (hsc : Srt cfg → Srt c) (hne : ∀ id, id ≠ x.nid → c.find? id = cfg.find? id) :
     G s₀ x ((doChangeConfig n x task c).replOrder.foldl (body n task c) (doChangeConfig n x task c).popOrder) ∧
     CAsOut t x task cfg ((doChangeConfig n x task c).replOrder.foldl (body n task c) (doChangeConfig n x task c).popOrder) := by
-  obtain ⟨⟨gc, g⟩, o⟩ := hDC x task cfg c hVx hcan hd (hJ hcan) ha
+  obtain ⟨⟨gc, g⟩, o⟩ := hDC x task cfg c hVx hcan hd (hJ hcan).1 (fun hs => hsc ((hJ hcan).2 hs)) ha
   have hrel := (TL.block t ht n).2.2.2.1 x task c
   generalize doChangeConfig n x task c = y₀ at *
   have hfail : Failed y₀ → G s₀ x (y₀.replOrder.foldl (body n task c) y₀.popOrder) ∧
@@ -657,14 +659,14 @@ theorem CAs_succ {s₀ : Node} {t : Nat} (ht : t ≠ 0) {n : Nat} (hDC : DCspec 
             cfg.set { nd with voter := false, action := actNone }) := by unfold r; rw [if_pos hc, if_pos h1]
         rw [hr]
         have hone : OneNode cfg (cfg.set { nd with voter := false, action := actNone }) := oneNode_set _ x.nid _ hid hact
-        exact pathB ht hCA hDC task cfg _ x hV hcan (Or.inr hone) hJ (hone.anchor hanch)
+        exact pathB ht hCA hDC task cfg _ x hV hcan (Or.inr hone) hJ (hone.anchor hanch) (fun h => h.set _)
           (fun id hne => find?_set_ne cfg _ id (by rw [show ({ nd with voter := false, action := actNone } : CNode).id = x.nid from hid]; exact hne))
       · by_cases h2 : nd.action = actRemove ∨ nd.action = actForceRemove
         · have hr : r = (doChangeConfig n x task (cfg.erase x.nid), cfg.erase x.nid) := by
             unfold r; rw [if_pos hc, if_neg h1, if_pos h2]
           rw [hr]
           have hone : OneNode cfg (cfg.erase x.nid) := oneNode_erase _ x.nid hact
-          exact pathB ht hCA hDC task cfg _ x hV hcan (Or.inr hone) hJ (hone.anchor hanch)
+          exact pathB ht hCA hDC task cfg _ x hV hcan (Or.inr hone) hJ (hone.anchor hanch) (fun h => h.erase _)
             (fun id hne => find?_erase_ne cfg _ id hne)
         · have hr : r = (x.panic "unreachable", cfg) := by unfold r; rw [if_pos hc, if_neg h1, if_neg h2]
           rw [hr]
@@ -692,9 +694,9 @@ theorem Post.congr {c c' : Config} {x : Node} (h : Post c x) (e : c'.nodes = c.n
   · exact Or.inr (Or.inr ⟨h1, h2.congr e, h3⟩)
 
 theorem DC_succ {s₀ : Node} {n : Nat} (hSE : SEspec s₀ n) : DCspec s₀ (n + 1) := by
-  intro x task b c hV hcan hd hsv ha
+  intro x task b c hV hcan hd hsv hs ha
   unfold doChangeConfig
-  exact hSE.2 x _ b c hV hcan rfl rfl hd hsv ha
+  exact hSE.2 x _ b c hV hcan rfl rfl hd hsv hs ha
 
 theorem SE_succ {s₀ : Node} {n : Nat} (hMC : MCspec s₀ n) : SEspec s₀ (n + 1) := by
   constructor
@@ -723,7 +725,7 @@ theorem SE_succ {s₀ : Node} {n : Nat} (hMC : MCspec s₀ n) : SEspec s₀ (n +
       · exact (hMC.1 s4 hV4).of_le (by rw [hl4]; exact hl2)
       · exact G.mk hV4 (by rw [hl4]; exact hl2)
     · exact G.mk hV2 hl2
-  · intro x q b c hV hcan hq hc hd hsv ha
+  · intro x q b c hV hcan hq hc hd hsv hs ha
     obtain ⟨hcm, hact, hst⟩ := canChange_facts hcan.1
     unfold storeEntry
     extract_lets lastIndex s1 s2 s3 s4
@@ -754,7 +756,7 @@ theorem SE_succ {s₀ : Node} {n : Nat} (hMC : MCspec s₀ n) : SEspec s₀ (n +
       · exact ⟨G.failed hc2 hf2, Or.inl hf2⟩
     | succ m =>
       have e : s1 = storeItem m x q := by unfold s1; rw [storeItems_cons, storeItems_nil]
-      obtain ⟨hV1, ho⟩ := store_cfg s₀ m x q b c hV hcan.1 hcan.2 hq hc hd hsv ha
+      obtain ⟨hV1, ho⟩ := store_cfg s₀ m x q b c hV hcan.1 hcan.2 hq hc hd hsv hs ha
       rw [← e] at hV1 ho
       have hk2 : k1 s2 = k1 s1 := by
         unfold s2; split
@@ -975,10 +977,10 @@ theorem block (s₀ : Node) (t : Nat) (ht : t ≠ 0) : ∀ n : Nat,
     · intro x b hV _
       unfold storeEntry
       exact G.failed (LC.cpanic _ hV.cache) (failed_panic x _)
-    · intro x q b c hV _ _ _ _ _ _
+    · intro x q b c hV _ _ _ _ _ _ _
       unfold storeEntry
       exact ⟨G.failed (LC.cpanic _ hV.cache) (failed_panic x _), Or.inl (failed_panic x _)⟩
-    · intro x task b c hV _ _ _ _
+    · intro x task b c hV _ _ _ _ _
       unfold doChangeConfig
       exact ⟨G.failed (LC.cpanic _ hV.cache) (failed_panic x _), Or.inl (failed_panic x _)⟩
     · intro x task cfg hV _ _
